@@ -503,9 +503,10 @@ def group_ops(prog, tier):
                 ops.append(("fs_set", n, True))
     if root == "iterm2":
         if g in ("jq", "mixed"):
-            vals = [0, 95] if g != "mixed" else [50]
+            # a negative quality is a *value* ("JPEG encoding disabled"), not an unset: every node gets one
+            vals = [0, -1] if g != "mixed" else [50, -1]
             if not quick and g != "mixed":
-                vals = [0, 95, -7]
+                vals = [0, 95, -1]
             for n in C + I:
                 for v in vals:
                     ops.append(("jq_set", n, v))
@@ -516,6 +517,11 @@ def group_ops(prog, tier):
             if g != "mixed":
                 ops.append(("jq_set", C[-1], 1.5))
                 ops.append(("jq_set", I[-1], 1000))
+                ops.append(("jq_set", I[-1], -7))
+                if quick:
+                    ops.append(("jq_set", C[-1], 95))
+                else:
+                    ops.append(("jq_set", C[-1], -7))
         if g in ("rff", "mixed"):
             for n in C + I:
                 for v in ([True, False] if g != "mixed" else [False]):
